@@ -293,6 +293,8 @@ def check(pid: str, tier: str, runs: int | None = None) -> int:
         hits.sort(key=lambda rv: (len(rv[0]["case"].get("ops", [])) + len(rv[0]["case"].get("doc", "")) / 1000.0, rv[0]["idx"]))
         rec, v = hits[0]
         case = rec["case"]
+        if hasattr(prop, "refine"):
+            case = prop.refine(case, v)
         original = len(case.get("ops", []))
         small, tries = shrink(prop, case, oracle, known)
         v2 = still_fails(prop, small, oracle, known) or v
